@@ -5,7 +5,7 @@ from func_adl.ast.function_simplifier import FuncADLIndexError, simplify_chained
 
 from vlib.sh.common import HI, LO, TWIN, L, attr, call, const, dump, lam, mcall, name, nt, pick, sub, tick
 
-NCONT, NPOS, NSEL = 5, 4, 11
+NCONT, NPOS, NSEL = 6, 4, 11
 
 
 PLACEHOLDER = {int: 7, bool: True, str: "s", float: 1.5, bytes: b"b"}
@@ -43,6 +43,9 @@ def container(ck, v, n, ks):
         return ast.Dict([const("a"), const("b")], [attr(v, "f0"), attr(v, "f1")])
     if ck == 3:
         return ast.Dict([const(0), const(1)], [attr(v, "f0"), attr(v, "f1")])
+    if ck == 5:   # a display with a starred element: where the other elements sit is not known when the query is simplified
+        return ast.Tuple(el[:max(n - 1, 0)] + [attr(v, "f0"), ast.Starred(attr(v, "rest"), L)], L) if ks == "" else \
+            ast.Tuple([ast.Starred(attr(v, "rest"), L)] + el[:max(n - 1, 0)] + [attr(v, "f0")], L)    # starred element last / first (the symbolic key string decides)
     return ast.Dict([const(ks), const("b")], [attr(v, "f0"), attr(v, "f1")])
 
 
@@ -84,14 +87,14 @@ def build(ck, pos, n, sel_fn, ks):
 
 def c18a(code: int, sk: int, n: int, k: int, b: bool, s: str, ks: str) -> str:
     """
-    pre: LO <= code < HI and 0 <= code < 20
+    pre: LO <= code < HI and 0 <= code < 24
     pre: 0 <= sk < 11 and 0 <= n <= 3 and -5 <= k <= 5 and len(s) <= 2 and len(ks) <= 2
     post: (_ == '') != TWIN
     """
     code = pick(code, max(LO, 0), min(HI, NCONT * NPOS))
     ck, pos = code // NPOS, code % NPOS
     sk = pick(sk, 0, NSEL)
-    n = pick(n, 0, 4) if ck < 2 else 2
+    n = pick(n, 0, 4) if ck < 2 or ck == 5 else 2
     if sk in (5, 6, 8, 9, 10):
         if k < 0 or (sk >= 9 and k == 0):
             return ""
